@@ -330,8 +330,10 @@ impl<'a> World<'a> {
                     // a multi-byte character cut between the end of the first and the start of the second argument:
                     // each argument alone is not UTF-8 (their concatenation would be)
                     7 => {
-                        let splits: [(&[u8], &[u8]); 4] = [(b"\xC3\0", b"\xA9\0"), (b"Bin\xE2\x82\0", b"\xACx\0"), (b"\xF0\0", b"\x9F\x98\x80\0"), (b"a\xF0\x9F\0", b"\x98\x80\0")];
-                        let (x, y) = splits[self.rng.below(4)];
+                        // ... or only one of them is cut, at its very end, next to a perfectly valid other argument
+                        let splits: [(&[u8], &[u8]); 9] = [(b"\xC3\0", b"\xA9\0"), (b"Bin\xE2\x82\0", b"\xACx\0"), (b"\xF0\0", b"\x9F\x98\x80\0"), (b"a\xF0\x9F\0", b"\x98\x80\0"),
+                            (b"Ref\0", b"Caf\xC3\0"), (b"Ref\0", b"10 \xE2\x82\0"), (b"Caf\xC3\0", b"dis\0"), (b"Bin\0", b"\xF0\x9F\x98\0"), (b"Bin\0", b"ok\x80\0")];
+                        let (x, y) = splits[self.rng.below(9)];
                         let r = f(x.as_ptr() as *const c_char, y.as_ptr() as *const c_char);
                         self.expect_fail_make(&op, ArgClass::NonUtf8, r);
                     }
@@ -1761,6 +1763,12 @@ pub fn run(ctx: &mut Ctx, c18: bool) {
                             }
                             unsafe { w.teardown() };
                             ops = w.ops;
+                        }
+                        // the thread ends with a failure whose message nobody reads: the slot must be released with the thread
+                        unsafe {
+                            let _ = haystack_value_get_str_value(null());
+                            let c = cstr("no such unit");
+                            let _ = haystack_value_make_number_with_unit(1.0, c.as_ptr());
                         }
                         let v: Vec<(String, String, J)> = local.violations.values().map(|v| (v.sig.clone(), v.what.clone(), v.witness.clone())).collect();
                         (ops, v)
